@@ -140,6 +140,22 @@ theorem host_only_same_port (srv : ServerId) (e : Entry) (h : Str) (hh : e.host 
   refine ⟨by simp [portOf, hp], by simp [hostOf, hh], ?_⟩
   simp [linkUrl, hu, Entry.isLocal, hh, hne, Entry.geturl, hu2, hp]
 
+/-- **The item type is the same in the menu line and in the `gopher://` URL.**  For an entry on another server the URL
+    that HTTP, WAP, Gemini and Spartan listings show starts its path with the very type the Gopher menu line starts
+    with — `0` when the link block gave none (before repo commit c4fc796 the URL said `None`). -/
+theorem remote_link_same_type (srv : ServerId) (e : Entry) (nm h : Str) (hn : e.name = some nm) (hh : e.host = some h)
+    (hne : h.isEmpty = false) (hu2 : isUrlSel e.selector = false) :
+    ∃ t, (∀ line, gopher0Line srv e = some line → t <+: line) ∧
+      e.geturl srv.name srv.port = (quote (t ++ e.selector)).map fun q =>
+        lit "gopher://" ++ h ++ [58] ++ (match e.port with | some p => toDecInt p | none => toDec srv.port) ++ [47] ++ q := by
+  refine ⟨e.type.getD (lit "0"), ?_, ?_⟩
+  · intro line hl
+    simp only [gopher0Line, hn, Option.some.injEq] at hl
+    rw [← hl]; simp [List.append_assoc]
+  · have : pyStrOpt e.type = e.type.getD (lit "0") := by cases e.type <;> rfl
+    simp only [Entry.geturl, hu2, Bool.false_eq_true, if_false, hh, this, Option.getD_some]
+    rfl
+
 /-- **One entry list, six renderings (end to end).**  For a selector the handler chain answers
     with a menu, the response of every protocol is its own framing around `listingBody` of the
     *same* directory entry and the *same* entry list — `handled` has no protocol argument.  (With
